@@ -1279,6 +1279,60 @@ def r12(k: Kit) -> None:
                   k.loc(fi, n), g.describe_path(w) if w else None)
 
 
+def r13(k: Kit) -> None:
+    """The shortest legal NAME reply of each version is accepted."""
+    from ..absint import evaluate, Obj, NotEvaluable, _Raise
+    rep = k.rep
+    idx = k.idx
+    rep.rule('C14.R13', 'SFTPClientHandler._process_name evaluated on a '
+             'reply whose names have the minimal size of the negotiated '
+             'version (v3: name + longname + flags = 12 bytes; v4-v6: name '
+             '+ flags + type = 9 bytes; realpath("/") is 10): the names are '
+             'decoded and returned, no plausibility bound written for one '
+             'version rejects the legal replies of another')
+    fi = k.func('sftp.SFTPClientHandler._process_name')
+    body = [st for st in fi.node.body if not (
+        isinstance(st, ast.Expr) and isinstance(st.value, ast.Constant))]
+    bad = None
+    n = 0
+    for ver in (3, 4, 5, 6):
+        for count in (1, 3):
+            n += 1
+            per = 12 if ver == 3 else 9
+            st = {'left': per * count}
+
+            def on_call(nm, args, env, st=st, per=per):
+                if nm == 'packet.get_uint32':
+                    return count
+                if nm == 'packet.get_remaining_payload':
+                    return b'x' * st['left']
+                if nm == 'SFTPName.decode':
+                    st['left'] -= per
+                    return Obj('NAME')
+                if nm == 'len' and args and isinstance(args[0], bytes):
+                    return len(args[0])
+                if nm == 'packet.get_boolean':
+                    return False
+                if nm == 'range':
+                    return tuple(range(*args))
+                return Obj('x')
+            try:
+                o = evaluate(idx, fi.module, body, {'self._version': ver},
+                             {'packet': Obj('packet')}, on_call,
+                             atoms={'packet': False})
+            except NotEvaluable as exc:
+                rep.error('C14.R13', key(fi, 'not-evaluable'), str(exc))
+                return
+            if o.kind != 'return' and bad is None:
+                bad = (f'version {ver}, {count} name(s) of {per} bytes: '
+                       f'{o.kind} {o.value!r}')
+    rep.count('eval.minimal_name_replies', n)
+    rep.check(bad is None, 'C14.R13', key(fi, 'minimal NAME replies'),
+              f'{n} (version, count) pairs', f'{bad}: realpath / readlink / '
+              'readdir replies with short names never reach their caller on '
+              'that version', fi.loc(fi.node))
+
+
 def run(idx, rep, tier):
     k = Kit(idx, rep)
     rep.assumptions += NOT_DECIDED
@@ -1299,3 +1353,4 @@ def run(idx, rep, tier):
     r10(k)
     r11(k)
     r12(k)
+    r13(k)
